@@ -21,7 +21,7 @@ ATOMS = ["word", "two words.", "#hash", "##", "[br]", "]x", "[", ":field: v", ".
 CORE = ["word", "#hash", "[br]", "  two", "", "café → ✓ \U0001F600", ":field: v", "]x", "trailing  ", ".. note:: n",
         "e\u0301 \u212b \uf900 \u1100\u1161"]
 INDENTS = ["", " ", "  ", "    ", "      ", "        ", "\t", "\t\t", " \t"]
-CARRIERS = ["function", "macro", "set", "option", "generic", "add_test", "ct_add_test", "ct_add_section",
+CARRIERS = ["function", "macro", "set", "option", "generic", "add_test", "add_test_pos", "ct_add_test", "ct_add_section",
             "class1", "class2", "class3", "attr1", "attr3", "member1", "member2", "member3", "ctor1", "ctor2",
             "test_impldoc", "member_impldoc", "module_named", "module_unnamed"]
 
@@ -38,6 +38,8 @@ def carrier_events(carrier, body, tag="a"):
     d = {"doc": 1, "doctext": list(body)}
     if carrier == "generic":
         return [dict(k="generic", cmd="gcmd_" + tag, **d)], 0
+    if carrier == "add_test_pos":      # the short signature add_test(<name> <command> [<arg>...])
+        return [dict(k="add_test", args=["smoke_" + tag, "prog_" + tag, "--flag"], **d)], 0
     if carrier in ("function", "macro", "set", "option", "generic", "add_test", "ct_add_test"):
         return [dict(k=carrier, **d)], 0
     if carrier == "ct_add_section":
@@ -70,6 +72,10 @@ def find_block(page, events, idx):
                 if b.name == "function" and ("${" + nm0 + "}") in b.arg.split("(")[0]]
     if ev["k"] == "module":
         return page.module()
+    if ev["k"] == "add_test" and "args" in ev and "NAME" not in ev["args"]:
+        # no NAME keyword: the entry has no name, it is recognised by its argument list
+        return [b for top in page.blocks for b in top.walk()
+                if b.name == "function" and b.arg.strip().startswith("(") and ev["args"][0] in b.arg]
     nm = ev.get("ctor", "CTOR") if ev["k"] == "cpp_constructor" else ev.get("cmd", "message").lower() if ev["k"] == "generic" else name_of(ev, idx)
     out = []
     for top in page.blocks:
@@ -168,6 +174,8 @@ def check_twins(job):
 
 def check(job):
     mode = job[0]
+    if mode == "cli":
+        return check_cli(job)
     if mode == "twin":
         return check_twins(job)
     if mode == "single":
@@ -195,6 +203,40 @@ def check(job):
     return {"viol": msgs, "obs": common.digest(r["page"] or r["error"]), "nt": common.digest(job) if nt else None,
             "cls": (msgs[0].split(":")[0] + ("/nonascii" if any(ord(ch) > 127 for ch in text) else "")
                     + ("/module" if "@module" in text else "")) if msgs else None}
+
+
+CLI_NAMES = ["a.cmake", "a.b.cmake", "a.c.cmake", "a-b.cmake", "a_b.cmake", "A.cmake", "a.cmake.cmake", "ab.cmake",
+             "sub/a.cmake", "sub/a.b.cmake", "sub.cmake", "a/a.cmake"]
+
+
+def check_cli(job):
+    """a directory of modules whose names differ only in a way file-name handling might confuse, each with its own marker
+    lines: after `cminx -r -o out dir` every marker line is in exactly one generated file"""
+    from .. import fsbox
+    names = list(job[1])
+    box = fsbox.Box("c01")
+    msgs = []
+    try:
+        files = {}
+        for n, nm in enumerate(names):
+            files["in/" + nm] = (f"#[[[\n# Marker function {n} of {nm}.\n#\n#   indented {n}\n#]]\nfunction(fn_{n} a)\nendfunction()\n"
+                                 f"#[[[\n# Marker variable {n} of {nm}.\n#]]\nset(VAR_{n} v)\n")
+        box.build(files)
+        r = box.run(["-r", "-o", box.path("out"), box.path("work", "in")], cwd="work")
+        if r["status"] != 0:
+            msgs.append(f"error: cminx -r -o out dir failed on {names}: {r['exc'] or r['stdout'][-200:]}")
+        else:
+            pages = {k: v for k, v in box.files("out").items() if k.endswith(".rst")}
+            for n, nm in enumerate(names):
+                for line in (f"Marker function {n} of {nm}.", f"  indented {n}", f"Marker variable {n} of {nm}."):
+                    hits = [k for k, v in pages.items() if isinstance(v, str) and any(l.rstrip().endswith(line) for l in v.split("\n"))]
+                    if len(hits) != 1:
+                        msgs.append(f"cli-dropped: doc line {line!r} of {nm} is in {len(hits)} generated files {hits} "
+                                    f"(modules {names})")
+    finally:
+        box.cleanup()
+    msgs = [m.replace(box.root, "<box>") for m in msgs]
+    return {"viol": msgs[:4], "obs": common.digest([names, msgs]), "nt": common.digest(names), "cls": "cli-dropped" if msgs else None}
 
 
 def bodies(atoms, n):
@@ -248,6 +290,8 @@ def run(ctx):
     ctx.cov["bounds"] = {"atoms": ATOMS, "core": CORE, "indents": INDENTS, "carriers": CARRIERS,
                          "space_A": na, "space_B": nb, "space_C": nc}
     ctx.sweep(check, jobs, space="A+B+C")
+    cjobs = [("cli", CLI_NAMES)] + [("cli", [a, b]) for a, b in itertools.combinations(CLI_NAMES, 2)]
+    ctx.sweep(check_cli, cjobs, space="CLI: sibling modules with confusable names", selftest=2)
     ctx.assumptions += ["leading/trailing empty lines of a body are not compared (indistinguishable from paragraph spacing)",
                         "relative indentation is compared modulo a common offset, as the statement says",
                         "no atom contains ']]' (quantifier)"]
